@@ -1,7 +1,7 @@
 #!/bin/sh
 # usage: tools/suite_with.sh <worktree> <diff> <result-file> ; runs the baseline suite in a private netns
 WT=$1; D=$(realpath $2); OUT=$3
-git -C $WT checkout -q -- . && git -C $WT apply $D || { echo "patch does not apply" > $OUT; exit 1; }
+git -C $WT checkout -q -- . && git -C $WT checkout -q --detach $(git -C /repo rev-parse HEAD) && git -C $WT apply $D || { echo "patch does not apply" > $OUT; exit 1; }
 unshare -n sh -c "ip link set lo up; cd $WT && timeout 1200 /venv/bin/python -m pytest -q -p no:cacheprovider --timeout=900 --continue-on-collection-errors -x -q 2>&1 | grep -v '^DEBUG\|^INFO\|^WARNING' | tail -15" > $OUT.full 2>&1
 unshare -n sh -c "ip link set lo up; cd $WT && timeout 1200 /venv/bin/python -m pytest -q -p no:cacheprovider --timeout=900 --continue-on-collection-errors 2>&1 | grep -E '^(FAILED|ERROR)|passed|failed' | tail -12" > $OUT 2>&1
 git -C $WT checkout -q -- .
